@@ -241,6 +241,22 @@ let handle (w : string list) =
       if model = impl then say "ok" else say (Printf.sprintf "DIFF counters model=%s impl=%s" (csv_of_ints model) (csv_of_ints impl))
   | _ -> say ("DIFF unparsed " ^ String.concat " " w)
 
+(* hygiene at the end of every API call (any line that is not a trace line): no live entry may still sit on bytes that
+   were overwritten after it was set -- "every write path must SET or DEL the entry it overwrites on disk" in its
+   strict reading (the theorem needs only: before the entry is looked up again) *)
+let leftovers_seen : (int * int * int, unit) Hashtbl.t = Hashtbl.create 16
+let check_leftovers () =
+  if !tst.t_taint <> [] then
+    List.iter (fun e ->
+        if iz e.e_type >= 0 && tainted !tst.t_taint (entry_key e) then begin
+          let k = (iz e.e_file, iz e.e_block, iz e.e_off) in
+          if not (Hashtbl.mem leftovers_seen k) then begin
+            Hashtbl.replace leftovers_seen k ();
+            say (Printf.sprintf "VIOL leftover file=%d block=%d offset=%d type=%d: cached entry not refreshed/deleted by the call that overwrote its bytes"
+                   (iz e.e_file) (iz e.e_block) (iz e.e_off) (iz e.e_type))
+          end
+        end) !tst.t_stk.stk
+
 let run () =
   (try while true do
     let line = input_line stdin in
@@ -248,7 +264,7 @@ let run () =
       (try handle (split (String.sub line 2 (String.length line - 2)))
        with Failure m -> say ("DIFF engine-failure " ^ m));
       if Buffer.length out > 60000 then flush_out ()
-    end
+    end else if String.length line >= 2 && (String.sub line 0 2 = "ok" || String.sub line 0 2 = "er") then check_leftovers ()
   done with End_of_file -> ());
   let g k = try Hashtbl.find cnt k with Not_found -> 0 in
   say (Printf.sprintf "SUMMARY rd_hits=%d rd_from_wr=%d rd_disk=%d rd_large=%d flushes=%d multiblock_writes=%d stack_hits=%d stack_misses=%d stack_evictions=%d child_adds=%d child_deletes=%d child_renames=%d child_table_growths=%d max_files_open=%d live_stack=%d"
